@@ -6,6 +6,7 @@
 #include <stdexcept>
 #include <array>
 #include <cstring>
+#include <limits>
 
 namespace OP2Utility
 {
@@ -78,6 +79,13 @@ namespace OP2Utility
 		MapHeader mapHeader;
 		stream.Read(mapHeader);
 		CheckMinVersionTag(mapHeader.versionTag);
+
+		// Reject dimensions whose width (1 << lgWidthInTiles) or tile count (height << lgWidthInTiles) is not representable.
+		// Otherwise the shift is undefined or wraps, and the tile array would not hold width * height tiles.
+		if (mapHeader.lgWidthInTiles >= 32 ||
+			mapHeader.heightInTiles > (std::numeric_limits<uint32_t>::max() >> mapHeader.lgWidthInTiles)) {
+			throw std::runtime_error("Map dimensions are too large.");
+		}
 
 		Map map;
 		map.versionTag = mapHeader.versionTag;
